@@ -18,8 +18,17 @@ EV, SC = T.SRC_EVAL, T.SRC_SCORER
 CASES = [
     # (name, file, old, new, expected: "refused" | "accepted")
     ("list comprehension", EV, "chunk = password[0:ngram-1]", "chunk = ''.join([c for c in password[0:ngram-1]])", "refused"),
-    ("alias of a cache container", EV, "    if level in omen_trainer.grammar[ip]['keyspace_cache'][length]:",
-     "    d = omen_trainer.grammar[ip]['keyspace_cache'][length]\n    if level in omen_trainer.grammar[ip]['keyspace_cache'][length]:", "refused"),
+    ("alias of a cache container bound twice", EV, "    if level in omen_trainer.grammar[ip]['keyspace_cache'][length]:",
+     "    d = omen_trainer.grammar[ip]['keyspace_cache'][length]\n    d = omen_trainer.grammar[ip]['keyspace_cache'][length]\n"
+     "    if level in omen_trainer.grammar[ip]['keyspace_cache'][length]:", "refused"),
+    ("alias of a cache container rebound in a loop", EV,
+     "            if letter_level[0] == level:\n",
+     "            d = omen_trainer.grammar[ip]['keyspace_cache']\n            d = omen_trainer.grammar[ip]['keyspace_cache']\n"
+     "            if letter_level[0] == level:\n", "refused"),
+    ("alias of the counter", EV, "    keyspace = Counter()\n", "    keyspace = Counter()\n    other = keyspace\n", "refused"),
+    ("new container stored through an alias outside the guard", EV, "    omen_trainer.grammar[ip]['keyspace_cache'][length][level] = 0\n",
+     "    per_ip = omen_trainer.grammar[ip]['keyspace_cache']\n    per_ip[length] = {}\n"
+     "    omen_trainer.grammar[ip]['keyspace_cache'][length][level] = 0\n", "refused"),
     ("container replaced outside the guard", EV, "    omen_trainer.grammar[ip]['keyspace_cache'][length][level] = 0\n",
      "    omen_trainer.grammar[ip]['keyspace_cache'][length] = {}\n    omen_trainer.grammar[ip]['keyspace_cache'][length][level] = 0\n", "refused"),
     ("except Exception", EV, "    except KeyError:\n        return -1\n\n\ndef _rec", "    except Exception:\n        return -1\n\n\ndef _rec", "refused"),
@@ -50,6 +59,14 @@ CASES = [
     ("keyword arguments of the recursive call", EV,
      "_rec_calc_keyspace(omen_trainer, level - letter_level[0], length - 1, ip[1:] + last_letter)",
      "_rec_calc_keyspace(omen_trainer, level - letter_level[0], ip=ip[1:] + last_letter, length=length - 1)", "accepted"),
+    ("alias of a cache container (a name for its path)", EV, "    if level in omen_trainer.grammar[ip]['keyspace_cache'][length]:",
+     "    d = omen_trainer.grammar[ip]['keyspace_cache'][length]\n    if level in d:", "accepted"),
+    ("alias of a read-only table", EV, "    pw_len = len(password)\n", "    pw_len = len(password)\n    g = omen_trainer.grammar\n", "accepted"),
+    ("counted while loop written as for ... in range", SC,
+     "            end_pos = self.ngram\n\n            while end_pos <= pass_len:\n                chunk = password[end_pos - self.ngram:end_pos]\n"
+     "                chain_level += self.cp[chunk]\n                end_pos += 1\n",
+     "            for end_pos in range(self.ngram, pass_len + 1):\n                chunk = password[end_pos - self.ngram:end_pos]\n"
+     "                chain_level += self.cp[chunk]\n", "accepted"),
     ("max_len defined another way", SC, "self.max_len = len(self.ln) - 1", "self.max_len = len(self.ln) - 2 + 1", "accepted"),
 ]
 
